@@ -128,6 +128,10 @@ func runRedeem(ctx *action.Context, tx action.RawTx) (bool, action.Response) {
 	if err != nil {
 		return helpers.LogAndReturnFalse(ctx.Logger, gov.ErrGetEthOptions, redeem.Tags(), err)
 	}
+	// the tracker is named after the raw transaction: it has to be exactly one well-formed transaction
+	if _, err := ethereum.DecodeTransaction(redeem.ETHTxn); err != nil {
+		return false, action.Response{Log: errors.Wrap(action.ErrInvalidExtTx, err.Error()).Error()}
+	}
 	req, err := ethereum.ParseRedeem(redeem.ETHTxn, ethOptions.ContractABI)
 	if err != nil {
 		return helpers.LogAndReturnFalse(ctx.Logger, action.ErrInvalidExtTx, redeem.Tags(), err)
